@@ -882,13 +882,44 @@ func (e *Engine) enter(s *State, f *Frame, from, to *ssa.BasicBlock) {
 // loopFrame records a cut loop: what was allocated when it was entered and which objects its body may write.
 type loopFrame struct {
 	allocL Term
-	W      []Term   // identities (at loop entry) of the objects named by `modifies=`
-	cells  []string // the local variables named by `modifies=`
-	fn     *ssa.Function
+	W      []Term     // identities (at loop entry) of the objects named by `modifies=`
+	Wnames [][]string // for each of them: prefixes of the heap arrays its contents live in (object identities are
+	//                   one untyped space; an object of another type never shares arrays with it)
+	cells []string // the local variables named by `modifies=`
+	fn    *ssa.Function
+}
+
+// heapNamesOf lists the heap-array name prefixes that hold the contents of what v refers to.
+func (e *Engine) heapNamesOf(v Val) []string {
+	switch x := v.(type) {
+	case SliceV:
+		var out []string
+		for _, l := range elemLeaves(x.Elem, elemPrefix(x.Elem)) {
+			out = append(out, l.name)
+		}
+		return out
+	case PtrV:
+		switch x.Kind {
+		case "struct":
+			return []string{"F_" + structName(x) + "_"}
+		case "arr":
+			return []string{"M_" + sortTag(elemSort(x.Elem))}
+		case "hcell":
+			return []string{"C"}
+		}
+	case MapV:
+		return []string{"MP_" + mapTag(x) + "$"}
+	}
+	return []string{""}
 }
 
 // cellRef gives the object identity a local variable (slice, pointer or map) currently refers to.
 func (e *Engine) cellRef(s *State, f *Frame, name string) (Term, bool) {
+	r, _, ok := e.cellRefV(s, f, name)
+	return r, ok
+}
+
+func (e *Engine) cellRefV(s *State, f *Frame, name string) (Term, Val, bool) {
 	var v Val
 	if c, ok := f.entry["$cell:"+name]; ok {
 		v = s.cellv[c.(*Cell)]
@@ -906,16 +937,16 @@ func (e *Engine) cellRef(s *State, f *Frame, name string) (Term, bool) {
 	}
 	switch x := v.(type) {
 	case SliceV:
-		return x.Ref, true
+		return x.Ref, v, true
 	case PtrV:
 		if x.Nil {
-			return refT(0), true
+			return refT(0), v, true
 		}
-		return x.Ref, true
+		return x.Ref, v, true
 	case MapV:
-		return x.Ref, true
+		return x.Ref, v, true
 	}
-	return Term{}, false
+	return Term{}, nil, false
 }
 
 // loopFrameCheck (at the back edge): every heap write of the body went to an object that the loop owns - one
@@ -1040,8 +1071,9 @@ func (e *Engine) havoc(s *State, f *Frame, h *ssa.BasicBlock, ann *LoopAnn) {
 	lf := loopFrame{allocL: s.alloc, fn: f.fn}
 	if ann != nil {
 		for _, c := range ann.Modifies {
-			if r, ok := e.cellRef(s, f, c); ok {
+			if r, v, ok := e.cellRefV(s, f, c); ok {
 				lf.W = append(lf.W, r)
+				lf.Wnames = append(lf.Wnames, e.heapNamesOf(v))
 				lf.cells = append(lf.cells, c)
 			} else {
 				panic("loop modifies= names " + c + ", which is not a slice, pointer or map variable in scope")
@@ -1091,8 +1123,16 @@ func (e *Engine) havocHeapArr(s *State, nm string, lf loopFrame) {
 	old := s.heap[nm]
 	fresh := e.declare(s, nm, e.heapSorts[nm])
 	cond := fmt.Sprintf("(select %s r!f)", lf.allocL.S)
-	for _, w := range lf.W {
-		cond = fmt.Sprintf("(and %s (not (= r!f %s)))", cond, w.S)
+	for i, w := range lf.W {
+		touches := false
+		for _, pre := range lf.Wnames[i] {
+			if strings.HasPrefix(nm, pre) {
+				touches = true
+			}
+		}
+		if touches {
+			cond = fmt.Sprintf("(and %s (not (= r!f %s)))", cond, w.S)
+		}
 	}
 	e.axiom(s, fresh, Term{S: fmt.Sprintf("(forall ((r!f Ref)) (! (=> %s (= (select %s r!f) (select %s r!f))) :pattern ((select %s r!f))))", cond, fresh.S, old.S, fresh.S), Sort: "Bool"})
 	s.heap[nm] = fresh
